@@ -5,6 +5,8 @@ package main
 import (
 	"flag"
 	"fmt"
+	"go/printer"
+	"go/token"
 	"os"
 	"path/filepath"
 	"sort"
@@ -22,7 +24,24 @@ func main() {
 	verif := flag.String("verif", "", "verif directory (default: directory above the binary)")
 	only := flag.String("only", "", "only report obligations whose rule|key contains this")
 	list := flag.Bool("list", false, "list obligations")
+	inl := flag.String("inline", "", "debug: print the inlined form of pkg|Recv|Name (e.g. '|Envelope|Digest', 'bill||calculateLine')")
 	flag.Parse()
+	if *inl != "" {
+		prog, err := core.Load(core.LoadOpts{Repo: *repo})
+		if err != nil {
+			fmt.Fprintln(os.Stderr, err)
+			os.Exit(2)
+		}
+		parts := strings.SplitN(*inl, "|", 3)
+		fd := prog.InlinedFunc(parts[0], parts[1], parts[2])
+		if fd == nil {
+			fmt.Fprintln(os.Stderr, "no such function")
+			os.Exit(2)
+		}
+		_ = printer.Fprint(os.Stdout, token.NewFileSet(), fd.Decl)
+		fmt.Println()
+		os.Exit(0)
+	}
 	if *tier == "" {
 		*tier = os.Getenv("VERIF_TIER")
 	}
@@ -65,21 +84,17 @@ func main() {
 			fmt.Fprintf(os.Stderr, "unknown or unclaimed property %s\n", id)
 			os.Exit(2)
 		}
-		c := core.NewCtx(strings.ToUpper(id), *tier, seed, prog, *verif)
+		c := props.RunViews(strings.ToUpper(id), *tier, seed, prog, *verif, false)
 		c.Only = *only
-		func() {
-			defer func() {
-				if r := recover(); r != nil {
-					c.Ob("PANIC", "checker", 0, false, fmt.Sprintf("analysis panicked: %v", r))
-					if os.Getenv("GOBLCHECK_TRACE") != "" {
-						panic(r)
+		if *tier == "thorough" {
+			func() {
+				defer func() {
+					if r := recover(); r != nil {
+						c.Ob("PANIC", "checker", 0, false, fmt.Sprintf("analysis panicked: %v", r))
 					}
-				}
-			}()
-			props.SetSubject(prog)
-			fn(c)
-			if *tier == "thorough" {
-				c.Rule("CONFIG", "the same rules on the js/wasm build configuration (properties with a wasm entry point)", 0)
+				}()
+				c.Reopen()
+				c.Rule("CONFIG", "the same rules on further build configurations (js/wasm where there is a wasm entry point, linux/386 for arithmetic and parsing)", 0)
 				c.Rule("CONTROL", "positive controls: seeded changes applied in memory must be reported", 0)
 				base := map[string]string{}
 				for _, o := range c.Obligations() {
@@ -88,8 +103,8 @@ func main() {
 					}
 				}
 				thorough(c, strings.ToUpper(id), *repo, *verif, base)
-			}
-		}()
+			}()
+		}
 		if *list {
 			c.Dump()
 		}
